@@ -98,6 +98,15 @@ def gen_inputs(ctx):
             p = rng.randrange(min(len(t), 6))
             t[p] = rng.randrange(256)
             out.append(("ScriptParse", B(bytes(t)), ("corrupt-head",)))
+    # tapes with NON-MINIMAL pushes and with oversized PUSHDATA2 elements, lengths declared correctly: whether the
+    # parser takes them or not, what it returns must serialise in standard form (or refuse elements over 520 bytes)
+    def vi(n):
+        return bytes([n]) if n < 0xfd else bytes([0xfd, n & 255, n >> 8])
+    for n_, hdr in [(k, bytes([76, k])) for k in (1, 2, 20, 75)] + [(k, bytes([77, k & 255, k >> 8])) for k in (1, 75, 76, 255, 256, 520, 521, 600, 1000)]:
+        body = hdr + bytes(rng.randrange(256) for _ in range(n_))
+        for extra in (b"", bytes([0x51]), bytes([3, 1, 2, 3])):
+            raw = extra + body + extra
+            out.append(("ScriptParse", B(vi(len(raw)) + raw), ("non-minimal-or-oversized-push", hdr[0], n_ > 520)))
     # small tapes (random over the interesting alphabet)
     alpha = [0, 1, 2, 3, 75, 76, 77, 78, 0x51, 0xfc, 0xfd, 0xfe, 0xff]
     import itertools
